@@ -176,13 +176,13 @@ Proof.
   - lia.
 Qed.
 
-Lemma G_rd_header maxArr : G 0 kv_cf (rd_header maxArr).
+Lemma G_rd_header maxArr : G (-4096) kv_cf (rd_header maxArr).
 Proof.
   unfold rd_header. pose proof (eq_refl : kv_cf = 12832%Z) as Ekv.
-  eapply (G_bind' _ _ 1024 (kv_cf + 1024)); [apply G_rd_int | intro magic | kz | kz | kz].
-  eapply (G_bind' 0 0 1024 (kv_cf + 1024)); [ | intro be | lia | lia | lia].
+  eapply (G_bind' _ _ (-3072) (kv_cf + 1024)); [apply G_rd_int | intro magic | kz | kz | kz].
+  eapply (G_bind' 0 0 (-3072) (kv_cf + 1024)); [ | intro be | lia | lia | lia].
   { destruct (magic =? 1179993927); [apply G_ret'; lia|]. destruct (magic =? 1195857222); [(apply G_ret'; lia) | apply G_fail'; [discriminate | lia]]. }
-  eapply (G_bind' _ _ 2048 (kv_cf + 2048)); [apply G_rd_int | intro ver | kz | kz | kz].
+  eapply (G_bind' _ _ (-2048) (kv_cf + 2048)); [apply G_rd_int | intro ver | kz | kz | kz].
   cbv zeta.
   eapply (G_bind' (-2048) 0 0 kv_cf); [ | intro cnt | lia | lia | lia].
   { eapply G_weaken; [apply G_take | destruct (ver =? 1); kz | lia]. }
@@ -196,14 +196,14 @@ Qed.
 
 Definition alloc_slack : N := 78368.   (* base_alloc + kv_cf *)
 
-Theorem decode_total bytes maxArr :
-  match decode bytes maxArr with
+Theorem decode_from_total base bytes maxArr :
+  match decode_from base bytes maxArr with
   | DPanic _ _ => False
   | DErr e _ => e <> EFuel
   | DOk _ _ => True
   end.
 Proof.
-  unfold decode. set (ma := if (maxArr =? 0)%Z then 1024%Z else maxArr).
+  unfold decode_from. set (ma := if (maxArr =? 0)%Z then 1024%Z else maxArr).
   pose proof (G_rd_header ma bytes) as H.
   destruct (rd_header ma bytes) as [[[ver kv0] ts] rest al | e al | p al].
   - cbv zeta. set (a := Z.of_N _).
@@ -214,10 +214,18 @@ Proof.
   - exact H.
 Qed.
 
-Theorem decode_alloc_linear bytes maxArr :
-  d_alloc (decode bytes maxArr) <= 256 * N.of_nat (length bytes) + alloc_slack.
+Theorem decode_total bytes maxArr :
+  match decode bytes maxArr with
+  | DPanic _ _ => False
+  | DErr e _ => e <> EFuel
+  | DOk _ _ => True
+  end.
+Proof. apply decode_from_total. Qed.
+
+Theorem decode_from_alloc_linear base bytes maxArr :
+  d_alloc (decode_from base bytes maxArr) <= 256 * N.of_nat (length bytes) + alloc_slack.
 Proof.
-  unfold decode. set (ma := if (maxArr =? 0)%Z then 1024%Z else maxArr).
+  unfold decode_from. set (ma := if (maxArr =? 0)%Z then 1024%Z else maxArr).
   pose proof (G_rd_header ma bytes) as H. pose proof (eq_refl : kv_cf = 12832%Z) as Ekv.
   unfold alloc_slack, base_alloc.
   destruct (rd_header ma bytes) as [[[ver kv0] ts] rest al | e al | p al].
@@ -227,6 +235,75 @@ Proof.
     destruct (seek_tensors a _ ts); cbn [d_alloc]; lia.
   - destruct H as [_ Hc]. unfold K, zlen in Hc. cbn [d_alloc]. lia.
   - destruct H.
+Qed.
+
+Theorem decode_alloc_linear bytes maxArr :
+  d_alloc (decode bytes maxArr) <= 256 * N.of_nat (length bytes) + alloc_slack.
+Proof. apply decode_from_alloc_linear. Qed.
+
+(** ** progress: a successful decode ends at least 16 bytes after where it started (magic, version and counts were read,
+    every seek over a tensor moves forward) - this is what makes the loop of server/create.go ggufLayers terminate *)
+Lemma go_pad_nonneg pos al : (0 <= pos)%Z -> (0 < al)%Z -> (0 <= go_pad pos al)%Z.
+Proof.
+  intros Hp Ha. unfold go_pad. rewrite (Z.rem_mod_nonneg pos al) by lia.
+  pose proof (Z.mod_pos_bound pos al Ha). rewrite Z.rem_mod_nonneg by lia. apply Z.mod_pos_bound. exact Ha.
+Qed.
+
+Lemma wrapZ64_cases z : (0 <= z < Z.of_N two64)%Z ->
+  ((z < Z.of_N two63)%Z /\ wrapZ64 z = z) \/ ((Z.of_N two63 <= z)%Z /\ (wrapZ64 z < 0)%Z).
+Proof.
+  intro H. unfold wrapZ64. rewrite Z.mod_small by lia.
+  destruct (Z.ltb_spec z (Z.of_N two63)); [left; split; [assumption | reflexivity] | right; split; [assumption | lia]].
+Qed.
+
+Lemma to_int64_lt n : (to_int64 n < Z.of_N two63)%Z.
+Proof.
+  unfold to_int64. pose proof (N.mod_lt n two64 ltac:(discriminate)).
+  destruct (N.ltb_spec (n mod two64) two63); [lia|]. unfold two63, two64 in *. lia.
+Qed.
+
+Lemma seek_tensors_forward al ts : forall pos e,
+  (0 < al <= Z.of_N two32)%Z -> (0 <= pos < Z.of_N two63)%Z -> seek_tensors al pos ts = Some e -> (pos <= e)%Z.
+Proof.
+  induction ts as [|t r IH]; intros pos e Ha Hp H; cbn [seek_tensors] in H.
+  - inversion H. lia.
+  - cbv zeta in H.
+    pose proof (go_pad_nonneg pos al ltac:(lia) ltac:(lia)) as Hpad.
+    assert (Hpadlt : (go_pad pos al < al)%Z).
+    { unfold go_pad. rewrite (Z.rem_mod_nonneg pos al) by lia. pose proof (Z.mod_pos_bound pos al ltac:(lia)).
+      rewrite Z.rem_mod_nonneg by lia. apply Z.mod_pos_bound. lia. }
+    destruct (wrapZ64_cases (pos + go_pad pos al)) as [[H1 E1]|[H1 E1]]; [unfold two32, two63, two64 in *; lia | | ].
+    2:{ destruct (Z.ltb_spec (wrapZ64 (pos + go_pad pos al)) 0); [discriminate | lia]. }
+    rewrite E1 in H.
+    destruct (Z.ltb_spec (pos + go_pad pos al) 0); [lia|].
+    pose proof (to_int64_lt (tensor_size (ti_kind t) (ti_shape t))) as Hszlt.
+    set (sz := to_int64 (tensor_size (ti_kind t) (ti_shape t))) in *.
+    destruct (Z.ltb_spec sz 0) as [|Hsz]; [discriminate|].
+    destruct (wrapZ64_cases (pos + go_pad pos al + sz)) as [[H2 E2]|[H2 E2]]; [unfold two32, two63, two64 in *; lia | | ].
+    2:{ destruct (Z.ltb_spec (wrapZ64 (pos + go_pad pos al + sz)) 0); [discriminate | lia]. }
+    rewrite E2 in H.
+    destruct (Z.ltb_spec (pos + go_pad pos al + sz) 0); [lia|].
+    assert (Hr : (0 <= pos + go_pad pos al + sz < Z.of_N two63)%Z) by lia.
+    specialize (IH _ e Ha Hr H). lia.
+Qed.
+
+Theorem decode_from_progress base bytes maxArr d al :
+  (0 <= base)%Z -> (base + Z.of_nat (length bytes) < Z.of_N two63)%Z ->
+  decode_from base bytes maxArr = DOk d al -> (base + 16 <= d_end d)%Z.
+Proof.
+  intros Hb Hlen. unfold decode_from. set (ma := if (maxArr =? 0)%Z then 1024%Z else maxArr).
+  pose proof (G_rd_header ma bytes) as H.
+  destruct (rd_header ma bytes) as [[[ver kv0] ts] rest al0 | e al0 | p al0]; [|discriminate|discriminate].
+  destruct H as [Hl Hc]. unfold K, zlen in Hc. cbv zeta. set (a := Z.of_N _).
+  destruct (Z.eqb_spec a 0) as [|Ha]; [discriminate|].
+  unfold go_pad_p. destruct (Z.eqb_spec a 0) as [|_]; [contradiction|].
+  destruct (seek_tensors a _ ts) as [e|] eqn:Es; [|discriminate].
+  intro Hd. inversion Hd; subst d. cbn [d_end].
+  apply seek_tensors_forward in Es.
+  - lia.
+  - unfold a in *. pose proof (N.mod_lt (kv_uint val_u32 ((k_param_count, VNum 10 (total_params ts)) :: kv0) k_alignment 32) two32 ltac:(discriminate)).
+    unfold two32 in *. lia.
+  - lia.
 Qed.
 
 Corollary decode_ok_or_error bytes maxArr :
